@@ -308,11 +308,10 @@ class SampleSegregatingPermutationPlateGenerator(RetrospectivePlateGenerator):
         for sample_id in screen.unique_sample_ids:
             sample_indices = np.arange(screen.size)[screen.sample_ids == sample_id]
 
-            if len(sample_indices) > self.max_plate_size:
-                n_plates = math.ceil(len(sample_indices) / float(self.max_plate_size))
-                plates = np.array_split(rng.permutation(sample_indices), n_plates)
-                for plate in plates:
-                    plate_indices.append(plate)
+            n_plates = math.ceil(len(sample_indices) / float(self.max_plate_size))
+            plates = np.array_split(rng.permutation(sample_indices), n_plates)
+            for plate in plates:
+                plate_indices.append(plate)
         logger.info(
             "SampleSegregatingPermutationPlateGenerator created {} plates".format(
                 len(plate_indices)
